@@ -80,6 +80,11 @@ def _beval(e, env):
     if t in env:
         return env[t]
     if isinstance(e, ast.Compare) and len(e.ops) == 1:
+        dual = {ast.In: ast.NotIn, ast.NotIn: ast.In, ast.Eq: ast.NotEq, ast.NotEq: ast.Eq, ast.Is: ast.IsNot, ast.IsNot: ast.Is}.get(type(e.ops[0]))
+        if dual is not None:
+            td = norm(ast.Compare(left=e.left, ops=[dual()], comparators=e.comparators))
+            if td in env and isinstance(env[td], bool):
+                return not env[td]
         l, r = norm(e.left), e.comparators[0]
         op = e.ops[0]
         if l in env and not isinstance(env[l], bool):
